@@ -2311,6 +2311,33 @@ pub fn gen_cases(topic: &str, seed: u64, n: usize, path: &str) -> Result<(), Str
             "lang" => json!({"topic":"lang","oracle":true,"wt":true,"src":src,"docs":docs,
                              "plan":{"tri":true,"sws":[[]],"eng":true}}),
             // C16: recorded find() calls, and documents perturbed in fields the rule does not address
+            // a field name with whitespace other than single blanks: the key as WRITTEN is what the rule
+            // addresses (KF-key-whitespace on the pinned code: the engine asks for the re-joined name)
+            "find" if mode == 9 && g.r.chance(1, 3) => {
+                let name = *g.r.pick(&["Image  Path", "Image\tPath", "a  b  c"]);
+                let joined: String = name.split_whitespace().collect::<Vec<_>>().join(" ");
+                let ent = |f: &str, v: J| json!({"m":"none","c":0,"f":cps(f),"v":v});
+                let px = json!({"t":"pat","k":"exact","ic":false,"a":cps("x")});
+                let src = json!({"cond":{"t":"id","n":cps("A")},"ids":[[cps("A"),{"t":"map","es":[ent(name, px.clone()), ent("g", px)]}]]});
+                let base = vec![obj(vec![(name.to_string(), s_node("x")), ("g".into(), s_node("x"))]),
+                                obj(vec![(name.to_string(), s_node("y")), ("g".into(), s_node("x"))]),
+                                obj(vec![("g".into(), s_node("x"))])];
+                let mut all_docs = vec![];
+                let mut dcls = vec![];
+                for (ci, d) in base.iter().enumerate() {
+                    all_docs.push(d.clone());
+                    dcls.push(ci);
+                    // the re-joined name is a DIFFERENT field, which no predicate addresses
+                    for v in ["x", "y"] {
+                        let mut d2 = d.clone();
+                        if let Some(kv) = d2.get_mut("kv").and_then(|k| k.as_array_mut()) { kv.push(json!([cps(&joined), s_node(v)])); }
+                        all_docs.push(d2);
+                        dcls.push(ci);
+                    }
+                }
+                json!({"topic":"find","oracle":true,"wt":true,"src":src,"docs":all_docs,"dcls":dcls,
+                       "plan":{"tri":false,"scope":"sw","sws":[[], [true,true,true,true]],"find":true}})
+            }
             "find" => {
                 let mut all_docs = vec![];
                 let mut dcls = vec![];
@@ -3177,6 +3204,18 @@ pub fn gen_cases(topic: &str, seed: u64, n: usize, path: &str) -> Result<(), Str
             if let Some(o) = c["src"].as_object_mut() { o.remove("_undef"); }
             c["plan"]["notwin"] = json!(true);
         }
+        if topic == "ser" && c.get("dupid").and_then(|d| d.as_bool()) != Some(true) {
+            // every second case is the KEY-ORDER twin of the one before: the same rule with the entries of
+            // every mapping written in the opposite order (equal as YAML values, different as rules: a
+            // mapping is a conjunction in written order), loaded right after it on the same thread
+            if let Some(prev) = twin.take() {
+                let mut t: J = prev;
+                reverse_entries(&mut t["src"]);
+                c = t;
+            } else if c.get("dupid").and_then(|d| d.as_bool()) == Some(false) {
+                twin = Some(c.clone());
+            }
+        }
         if topic == "pure" {
             // every second case is the TWIN of the one before: the same rule with every case flag
             // flipped, on the same documents - identical pattern texts that must not share state
@@ -3264,6 +3303,24 @@ fn flip_ic(v: &mut J) {
             }
         }
         J::Array(a) => a.iter_mut().for_each(flip_ic),
+        _ => {}
+    }
+}
+
+/// reverse the entries of every mapping of a rule source (bodies and nested blocks)
+fn reverse_entries(v: &mut J) {
+    match v {
+        J::Object(m) => {
+            if m.get("t").and_then(|t| t.as_str()) == Some("map") {
+                if let Some(J::Array(es)) = m.get_mut("es") {
+                    es.reverse();
+                }
+            }
+            for (_, x) in m.iter_mut() {
+                reverse_entries(x);
+            }
+        }
+        J::Array(a) => a.iter_mut().for_each(reverse_entries),
         _ => {}
     }
 }
